@@ -31,6 +31,7 @@ THEOREMS = [
     # string level of the JSON key flags (Props/JsonKey.lean)
     'JKey.unflag_flag', 'JKey.rsplit1_append', 'JKey.removeAll_append_self',
     'JKey.contains_append_false', 'JKey.marker_in_key_is_misread',
+    'JShape.shapeOf_nest', 'JShape.roundtrip', 'JShape.empty_array_shape_lost',
 ]
 
 FMTS = ['h5', 'npz', 'json']
@@ -612,7 +613,13 @@ def suite_files(ctx):
                  'loaded': res[:3000], 'model': o[:3000]})
         # arrays without elements keep shape and dtype (hypothesis `hcod` of
         # load_save_json at its edge: tolist() of shape (0, 3) is [])
-        for shp_ in [(0,), (0, 3), (2, 0), (2, 0, 3), (3, 1, 0)]:
+        shapes_ = [(0,), (0, 3), (2, 0), (2, 0, 3), (3, 1, 0), (2, 3), (1,),
+                   (1, 0, 2), (4, 1, 2)]
+        # model: the shape after tolist() / asarray (JShape.shapeOf o nest)
+        jshape = {shp_: tuple(int(x) for x in o.split()) for shp_, o in zip(
+            shapes_, common.run_driver(
+                ['io jshape ' + ' '.join(map(str, s_)) for s_ in shapes_]))}
+        for shp_ in shapes_:
             for dt in (float, complex, np.int64):
                 arr0 = np.zeros(shp_, dtype=dt)
                 for fmt in FMTS:
@@ -628,6 +635,10 @@ def suite_files(ctx):
                     except Exception as e:      # noqa
                         okk, det = False, f'{type(e).__name__}: {e}'
                     ctx.count(key=('empty-array', shp_, np.dtype(dt).name, fmt))
+                    if fmt == 'json' and isinstance(got, np.ndarray) and \
+                            got.shape != jshape[shp_]:
+                        bad.append(('json shape vs model', shp_, got.shape,
+                                    jshape[shp_]))
                     if not okk:
                         lost = fmt == 'json' and len(shp_) > 1 and \
                             isinstance(got, np.ndarray) and \
